@@ -238,10 +238,18 @@ func runEngineCase(c EngineCase) Outcome {
 					o.Fail = failf("process-fault-rejects", "proposal-accepted-despite-engine-fault", "block %d: newPayload answered %s and the proposal was accepted", i, kind)
 					return o
 				}
-			case "end-newpayload":
-				endFaults = append(endFaults, world.Fault{Method: "newPayload", Nth: 0, Kind: kind})
-			case "end-fcu":
-				endFaults = append(endFaults, world.Fault{Method: "fcu", Nth: 0, Kind: kind})
+			case "end-newpayload", "end-fcu":
+				// EndBlock makes one call of each kind: only the first fault placed on it can fire
+				method := map[string]string{"end-newpayload": "newPayload", "end-fcu": "fcu"}[f.Site]
+				dup := false
+				for _, e := range endFaults {
+					if e.Method == method {
+						dup = true
+					}
+				}
+				if !dup {
+					endFaults = append(endFaults, world.Fault{Method: method, Nth: 0, Kind: kind})
+				}
 			}
 		}
 		// ---- the fault-free twin executes the block ----
